@@ -18,15 +18,15 @@ GID = "a2ml::GenericIfData"
 def tokenizer_table(prog):
     A = sym.Analyzer(prog, opaque=[r"tokenizer::.*", r"loader::.*", r"a2ml::.*"])
     out = {}
-    for fid in ("tokenizer::tokenize", "a2ml::tokenize_include"):
+    for fid in ("tokenizer::tokenize", "a2ml::tokenize_include", "a2ml::tokenize_a2ml"):
         rows = diag.agg_rows(prog, A, fid, {"tokenizer::TokenizerError"})
         b = prog.bodies.get(fid)
         if b is None:
             continue
         S = A.summary(fid)
         for ev in S.events:
-            if ev[0] == "call" and ev[3] == fid and re.search(r"(tokenizer::tokenize|a2ml::tokenize_a2ml|loader::load|loader::make_include_filename|Vec::append)$", ev[1]):
-                rows.append(["call " + ev[1].split("::")[-1] + ("(%s)" % guards.fmt_terms(ev[2][0]) if ev[1].endswith("append") else ""), sorted(guards.guard_set(b, S, ev[6]))])
+            if ev[0] == "call" and ev[3] == fid and re.search(r"(tokenizer::tokenize|a2ml::tokenize_a2ml|loader::load|loader::make_include_filename|Vec::append|Vec::extend_from_slice|Vec::extend|Vec::push|String::push_str)$", ev[1]):
+                rows.append(["call " + ev[1].split("::")[-1] + ("(%s)" % guards.fmt_terms(ev[2][0]) if re.search(r"(append|extend_from_slice|extend|push|push_str)$", ev[1]) else ""), sorted(guards.guard_set(b, S, ev[6]))])
         rows.sort(key=lambda r: (r[0], r[1]))
         out[fid] = rows
     # resolution of the include file name relative to the including file
